@@ -6,6 +6,7 @@ import (
 	"strings"
 
 	"verif/harness/hlib"
+	"verif/harness/life"
 )
 
 const Rule = "consumer scenario = f(seed): brokers 1-3, partitions 1-3, pre-populated logs 0-20 records, start literal/oldest/newest, version 0.8.2-2.8 (message sets v0/v1, record batches), 1-5 records per fetch, per-fetch faults (drop, empty, error classes, no reply), leader move, reader pauses longer than MaxProcessingTime, interceptors, appends while consuming, optional early close. non-trivial = distinct (version class, fault kinds, slow reader, interceptors) with at least one delivered message"
@@ -25,8 +26,12 @@ func RunAll(run *hlib.Run, prop string, sigPrefixes []string, n int) {
 	if lines := run.ReplayLines(); lines != nil {
 		for _, l := range lines {
 			t := strings.Fields(l)
+			s, ok := life.ReplaySeed(t, "cs")
 			if len(t) >= 2 && t[0] == "cs" {
-				s, _ := strconv.ParseUint(t[1], 10, 64)
+				s, _ = strconv.ParseUint(t[1], 10, 64)
+				ok = true
+			}
+			if ok {
 				for k := 0; k < 20; k++ {
 					seeds = append(seeds, s)
 				}
@@ -74,6 +79,9 @@ func RunAll(run *hlib.Run, prop string, sigPrefixes []string, n int) {
 		if !res.CloseHang {
 			run.Emit("creset", "ok")
 			for _, l := range res.Trace {
+				run.Emit(l, "ok")
+			}
+			for _, l := range res.Life {
 				run.Emit(l, "ok")
 			}
 		}
